@@ -6,9 +6,10 @@ import common as C
 from gen import matchers as G
 
 PROPERTY = "C16"
-LEAN_MODULES = ["LccModel.Props.C16", "LccModel.Props.C16Keys"]
-PROPS_FILES = ["LccModel/Props/C16.lean", "LccModel/Props/C16Keys.lean"]
-NAMESPACES = {"LccModel/Props/C16.lean": "LccModel.C16", "LccModel/Props/C16Keys.lean": "LccModel.C16Keys"}
+LEAN_MODULES = ["LccModel.Props.C16", "LccModel.Props.C16Keys", "LccModel.Props.C16Json"]
+PROPS_FILES = ["LccModel/Props/C16.lean", "LccModel/Props/C16Keys.lean", "LccModel/Props/C16Json.lean"]
+NAMESPACES = {"LccModel/Props/C16.lean": "LccModel.C16", "LccModel/Props/C16Keys.lean": "LccModel.C16Keys",
+              "LccModel/Props/C16Json.lean": "LccModel.C16Json"}
 DRIVER = "drivers/C16.lean"
 TRUSTED_BASE = [
     "Lean 4.33.0 kernel; axioms of the property theorems ⊆ {propext, Classical.choice, Quot.sound}",
@@ -26,7 +27,8 @@ ASSUMPTIONS = [
     "fixes/D4-format-result-details-empty.diff and fixes/D12-D13-not-description-shared-transformer.diff are applied to the code "
     "under test (the model mirrors the repaired code; on the unrepaired tree the corpus witnesses fail the oracle)",
     "DISPLAY_DETAILS_WHEN_EQUAL keeps its default (True)",
-    "match_pattern / is_text / is_json and check_that_in & co. are outside the modelled constructor set",
+    "match_pattern / is_text and check_that_in & co. are outside the modelled constructor set; is_json is modelled up to the TEXT "
+    "of its failure details (the diff of the two printed documents is a parameter of the model: Props/C16Json.lean)",
 ]
 RULE = ("matcher expression built from the public constructors (depth <= 4) applied to a value of the mixed domain (incl. dicts whose "
         "keys are of mixed types, as actual and as expected value, at any depth); non-trivial = "
@@ -399,8 +401,213 @@ class Ops(C.Stream):
                 yield {"ops": ops[:i] + [dict(o, expr=e)] + ops[i + 1:]}
 
 
+# ----------------------------------------------------------------------------------------------
+# is_json(expected): equality of the two DATA STRUCTURES (actual == expected), never of what they look like when printed
+# ----------------------------------------------------------------------------------------------
+
+def jm_matcher(e):
+    """JM syntax -> real matcher object (public functions only)"""
+    import lemoncheesecake.matching as M
+    c = e[0]
+    if c == "is_json":
+        return M.is_json(G.to_py(e[1]))
+    if c == "not_":
+        return M.not_(jm_matcher(e[1]))
+    if c == "all_of":
+        return M.all_of(*[jm_matcher(a) for a in e[1]])
+    if c == "any_of":
+        return M.any_of(*[jm_matcher(a) for a in e[1]])
+    if c == "has_entry":
+        return M.has_entry(list(e[1]), jm_matcher(e[2]))
+    return G.to_matcher(e, top=False)
+
+
+def jm_truth(e, x):
+    """what the expression means, with Python's own operators"""
+    c = e[0]
+    if c == "is_json":
+        return x == G.to_py(e[1])
+    if c == "not_":
+        return not jm_truth(e[1], x)
+    if c == "all_of":
+        return all(jm_truth(a, x) for a in e[1])
+    if c == "any_of":
+        return any(jm_truth(a, x) for a in e[1])
+    if c == "has_entry":
+        d = x
+        for k in e[1]:
+            try:
+                d = d[k]
+            except (KeyError, TypeError, IndexError):
+                return False
+        return jm_truth(e[2], d)
+    return G.ref_truth(e, x)
+
+
+def _json_doc(rng, depth):
+    """a JSON document: scalars, lists, objects with str keys (is_json prints with sort_keys=True: keys of ONE type)"""
+    r = rng.random()
+    if depth <= 0 or r < 0.4:
+        return G.gen_scalar(rng)
+    if r < 0.72:
+        return ["l", [G.fresh_nans(_json_doc(rng, depth - 1)) for _ in range(rng.choice([0, 1, 1, 2, 3]))]]
+    keys = rng.sample(G.KEYS, rng.choice([0, 1, 1, 2, 3]))
+    return ["d", [[k, G.fresh_nans(_json_doc(rng, depth - 1))] for k in keys]]
+
+
+def _perturb(rng, v):
+    """a value that differs from v somewhere (one scalar replaced, one element dropped, …)"""
+    if isinstance(v, list) and v[0] == "l" and v[1]:
+        i = rng.randrange(len(v[1]))
+        if rng.random() < 0.3:
+            return ["l", v[1][:i] + v[1][i + 1:]]
+        return ["l", v[1][:i] + [G.fresh_nans(_perturb(rng, v[1][i]))] + v[1][i + 1:]]
+    if isinstance(v, list) and v[0] == "d" and v[1]:
+        i = rng.randrange(len(v[1]))
+        return ["d", v[1][:i] + [[v[1][i][0], G.fresh_nans(_perturb(rng, v[1][i][1]))]] + v[1][i + 1:]]
+    return G.gen_scalar(rng)
+
+
+class IsJson(C.Stream):
+    """is_json(expected), alone and under not_/all_of/any_of/has_entry, on values equal / unequal to expected under =="""
+    name = "C16.json"
+    quick_cases = 3000
+    thorough_cases = 40000
+    quick_seconds = 20
+    thorough_seconds = 200
+    chunk = 250
+    _n = [["l", [["i", 1], ["d", [["a", False], ["b", ["l", [["f", 4]]]]]]]], ["l", [True, ["d", [["b", ["l", [["i", 2]]]], ["a", ["f", 0]]]]]]]
+    corpus = [
+        # equal for Python, printed differently (minimised failing inputs of seeded/C16-11: a decision taken on the printed text)
+        {"jm": ["is_json", ["i", 1]], "value": ["f", 2]},
+        {"jm": ["is_json", ["f", 0]], "value": ["i", 0]},
+        {"jm": ["is_json", ["i", 1]], "value": True},
+        {"jm": ["is_json", False], "value": ["i", 0]},
+        {"jm": ["is_json", ["l", [["i", 1]]]], "value": ["l", [["f", 2]]]},
+        {"jm": ["is_json", ["d", [["a", ["i", 0]]]]], "value": ["d", [["a", False]]]},
+        {"jm": ["is_json", _n[0]], "value": _n[1]},
+        {"jm": ["not_", ["is_json", ["i", 1]]], "value": ["f", 2]},
+        {"jm": ["all_of", [["is_json", ["i", 1]], ["not_", ["is_none"]]]], "value": True},
+        {"jm": ["any_of", [["is_none"], ["is_json", ["l", [False]]]]], "value": ["l", [["f", 0]]]},
+        {"jm": ["has_entry", ["k", 0], ["is_json", ["f", 2]]], "value": ["d", [["k", ["l", [["i", 1]]]]]]},
+        # … and the other way round: printed alike, different for Python; plain equal / unequal documents; NaN equals nothing
+        {"jm": ["is_json", ["s", "1"]], "value": ["i", 1]},
+        {"jm": ["is_json", ["i", 1]], "value": ["i", 2]},
+        {"jm": ["is_json", ["d", [["a", ["i", 1]], ["b", None]]]], "value": ["d", [["b", None], ["a", ["i", 1]]]]},
+        {"jm": ["is_json", ["l", [["i", 1], ["i", 2]]]], "value": ["l", [["i", 2], ["i", 1]]]},
+        {"jm": ["is_json", ["nan", "new"]], "value": ["nan", "new"]},
+        {"jm": ["not_", ["is_json", ["l", [["nan", "new"]]]]], "value": ["l", [["nan", "new"]]]},
+        {"jm": ["is_json", ["l", []]], "value": ["d", []]},
+    ]
+
+    def gen(self, rng, i):
+        exp = _json_doc(rng, rng.choice([0, 1, 1, 2, 2, 3]))
+        r = rng.random()
+        if r < 0.45:
+            act = G.retype(rng, exp)
+        elif r < 0.6:
+            act = exp
+        elif r < 0.8:
+            act = _perturb(rng, G.retype(rng, exp, 0.3))
+        else:
+            act = _json_doc(rng, 2)
+        jm = ["is_json", exp]
+        for _ in range(rng.choice([0, 0, 0, 1, 1, 2])):
+            w = rng.random()
+            if w < 0.35:
+                jm = ["not_", jm]
+            elif w < 0.55:
+                jm = ["all_of", [jm, G.gen_leaf(rng)] if rng.random() < 0.5 else [G.gen_leaf(rng), jm]]
+            elif w < 0.75:
+                jm = ["any_of", [jm, G.gen_leaf(rng)] if rng.random() < 0.5 else [G.gen_leaf(rng), jm]]
+            else:
+                k = rng.choice(G.KEYS)
+                if rng.random() < 0.5:
+                    jm, act = ["has_entry", [k], jm], ["d", [[k, G.fresh_nans(act)]] + ([["zz", None]] if rng.random() < 0.3 else [])]
+                else:
+                    jm, act = ["has_entry", [0], jm], ["l", [G.fresh_nans(act)]]
+        return {"jm": jm, "value": act}
+
+    def impl(self, case):
+        m = jm_matcher(case["jm"])
+        v = G.to_py(case["value"])
+        return {"res": _result_obs(lambda: m.matches(v))}
+
+    def oracle(self, case, obs):
+        try:
+            ref = jm_truth(case["jm"], G.to_py(case["value"]))
+        except Exception as ex:  # noqa: BLE001 - the class name IS the reference
+            ref = type(ex).__name__
+        res, top = obs["res"], case["jm"][0]
+        if "error" in res:
+            if ref != res["error"]:
+                return [C.Failure(f"C16/json/{top}/raises-{res['error']}",
+                                  f"matches() raised {res['error']} but Python's operators give {ref!r}", {"reference": ref})]
+            return []
+        if res["ok"] is not True and res["ok"] is not False:
+            return [C.Failure(f"C16/json/{top}/non-bool-outcome", f"is_successful is {res['ok']!r}")]
+        if isinstance(ref, str):
+            return [C.Failure(f"C16/json/{top}/swallows-{ref}", f"Python's operators raise {ref}, matches() returned {res['ok']}")]
+        if ref != res["ok"]:
+            return [C.Failure(f"C16/json/{top}/matcher-differs-from-python",
+                              f"matches() says {res['ok']}, actual == expected (Python) gives {ref}", {"reference": ref})]
+        if top == "is_json" and res["ok"] and res["details"] is not None:
+            return [C.Failure("C16/json/is_json/details-on-success", f"a successful is_json carries details {res['details']!r}")]
+        return []
+
+    def request(self, case, obs):
+        return {"jm": case["jm"], "value": case["value"]}
+
+    def compare(self, case, obs, ans):
+        if "ok" not in ans:
+            return "model error: " + str(ans.get("error"))
+        got = obs["res"].get("error", obs["res"].get("ok"))
+        if ans["ok"] != got:
+            return f"matches(): model {ans['ok']!r} vs implementation {got!r}"
+        if ans["sem"] != got:
+            return f"reference semantics of the model {ans['sem']!r} vs implementation {got!r}"
+        return None
+
+    def nontrivial(self, case, obs):
+        return G.depth_of(case["jm"]) >= 2 or (isinstance(case["value"], list) and case["value"][0] in ("l", "d"))
+
+    def features(self, case, obs):
+        res = obs["res"]
+        f = ["raised:" + res["error"] if "error" in res else ("ok" if res["ok"] else "fail")]
+        f += ["c:" + c for c in sorted(G.constructors_of(case["jm"]))]
+        exp = next((l for l in G.literals_of(case["jm"])), None)
+        jm, v = case["jm"], case["value"]
+        while jm[0] == "has_entry" and isinstance(v, list) and v[0] in ("l", "d") and v[1]:     # look through the wrapping
+            jm, v = jm[2], (v[1][0] if v[0] == "l" else v[1][0][1])
+        if jm[0] == "is_json":
+            e, a = G.to_py(jm[1]), G.to_py(v)
+            import json as _json
+            same_text = _json.dumps(e, sort_keys=True) == _json.dumps(a, sort_keys=True)
+            f.append("bare:%s/%s" % ("equal" if a == e else "unequal", "same-text" if same_text else "other-text"))
+            if a == e and not same_text:
+                f.append("cross-type-equal:" + ("nested" if isinstance(e, (list, dict)) else "top"))
+        return f
+
+    def shrink(self, case):
+        jm, v = case["jm"], case["value"]
+        for s in G.sub_exprs(jm):
+            if s[0] in ("is_json", "not_", "all_of", "any_of", "has_entry"):
+                yield {"jm": s, "value": v}
+                if jm[0] == "has_entry" and isinstance(v, list) and v[0] in ("l", "d") and v[1]:
+                    yield {"jm": s, "value": v[1][0] if v[0] == "l" else v[1][0][1]}
+        if jm[0] == "is_json":
+            e = jm[1]
+            if isinstance(e, list) and e[0] in ("l", "d") and isinstance(v, list) and v[0] == e[0]:
+                for i in range(len(e[1])):
+                    for j in range(len(v[1])):
+                        yield {"jm": ["is_json", [e[0], e[1][:i] + e[1][i + 1:]]], "value": [v[0], v[1][:j] + v[1][j + 1:]]}
+                for x in e[1]:
+                    for y in v[1]:
+                        yield {"jm": ["is_json", x if e[0] == "l" else x[1]], "value": y if v[0] == "l" else y[1]}
+
+
 def streams(ctx):
-    return [Match(), Ops()]
+    return [Match(), Ops(), IsJson()]
 
 
 # ----------------------------------------------------------------------------------------------
@@ -440,4 +647,50 @@ def tables(ctx):
             except Exception as e:  # noqa: BLE001 - the table records that the real function raised
                 out, lean_out = "raises " + type(e).__name__, "none"
             rows.append(("[%s]" % ", ".join(_lean_key(k) for k in ks), lean_out, "jsonify(%r) = %s" % (d, out)))
-    return [C.Table("jsonifyKeysTable", "List (List DKey × Option (List Nat))", rows, ("LccModel.Model.Matcher",))]
+    return [C.Table("jsonifyKeysTable", "List (List DKey × Option (List Nat))", rows, ("LccModel.Model.Matcher",)),
+            _is_json_table()]
+
+
+# is_json(expected).matches(actual) on every ordered pair of a universe that holds, for each number, its bool / int / float
+# forms — at the top, in a list, in a nested list, below a dict key — next to values that print alike but differ
+IS_JSON_UNIVERSE = [None, True, False, ["i", 0], ["i", 1], ["i", 2], ["f", 0], ["f", 2], ["f", 4], ["f", 1], ["s", "1"], ["s", ""],
+                    ["nan", "new"], ["l", []], ["l", [["i", 1]]], ["l", [["f", 2]]], ["l", [True]], ["l", [["l", [["i", 0]]]]],
+                    ["l", [["l", [False]]]], ["d", []], ["d", [["a", ["i", 1]]]], ["d", [["a", ["f", 2]]]], ["d", [["a", True]]],
+                    ["d", [["a", ["l", [["f", 0]]]]]], ["d", [["a", ["l", [False]]]]], ["d", [["b", ["i", 1]]]]]
+
+
+def _lean_int(n):
+    return "Int.ofNat %d" % n if n >= 0 else "Int.negSucc %d" % (-n - 1)
+
+
+def _lean_val(v):
+    if v is None:
+        return "Val.none"
+    if isinstance(v, bool):
+        return "Val.bool %s" % ("true" if v else "false")
+    t, x = v
+    if t in ("i", "f"):
+        return "Val.%s (%s)" % ("int" if t == "i" else "float", _lean_int(x))
+    if t == "nan":
+        return "Val.nan"
+    if t == "s":
+        return "Val.str [%s]" % ", ".join("Char.ofNat %d" % ord(c) for c in x)
+    if t == "l":
+        return "Val.list [%s]" % ", ".join(_lean_val(e) for e in x)
+    if t == "d":
+        return "Val.dict [%s] [%s]" % (", ".join(_lean_key(k) for k, _ in x), ", ".join(_lean_val(e) for _, e in x))
+    raise ValueError(v)
+
+
+def _is_json_table():
+    from lemoncheesecake.matching import is_json
+    rows = []
+    for e in IS_JSON_UNIVERSE:
+        for a in IS_JSON_UNIVERSE:
+            try:
+                ok = is_json(G.to_py(e)).matches(G.to_py(a)).is_successful
+                out = "some %s" % ("true" if ok is True else "false") if isinstance(ok, bool) else "none"
+            except Exception as ex:  # noqa: BLE001 - the table records that the real function raised
+                ok, out = "raises " + type(ex).__name__, "none"
+            rows.append(("(%s, %s)" % (_lean_val(e), _lean_val(a)), out, "is_json(%r).matches(%r) = %s" % (G.to_py(e), G.to_py(a), ok)))
+    return C.Table("isJsonTable", "List ((Val × Val) × Option Bool)", rows, ("LccModel.Model.Matcher",))
